@@ -318,6 +318,28 @@ impl PublicBatchProver {
 /// admission checks ran only after `PublicBatchProver::new`).
 /// [`PublicBatchProver::commit`] runs the same checks so direct prover users
 /// remain covered.
+/// Verification hooks: read-only access to the prover's targets and witness.
+#[cfg(quantus_network_qp_zk_circuits_verif)]
+impl PublicBatchProver {
+    pub fn verif_targets(&self) -> Option<PublicBatchCircuitTargets> {
+        self.targets.clone()
+    }
+
+    pub fn verif_partial_witness(&self) -> &PartialWitness<F> {
+        &self.partial_witness
+    }
+}
+
+/// Verification hook: public entry to the public-batch preflight.
+#[cfg(quantus_network_qp_zk_circuits_verif)]
+pub fn verif_preflight_private_batch_proofs(
+    proofs: &[ProofWithPublicInputs<F, C, D>],
+    num_private_batch_proofs: usize,
+    private_batch_verifier: &VerifierCircuitData<F, C, D>,
+) -> Result<()> {
+    preflight_private_batch_proofs(proofs, num_private_batch_proofs, private_batch_verifier)
+}
+
 pub(crate) fn preflight_private_batch_proofs(
     proofs: &[ProofWithPublicInputs<F, C, D>],
     num_private_batch_proofs: usize,
